@@ -2,7 +2,7 @@
    Statements about the RN instance of Model/Pbox.v (frechet_op), for any number of steps n,
    every selection of one point per focal step and every permutation coupling. *)
 From Coq Require Import Reals Lra List Permutation.
-From PUN Require Import Base.Num Base.Sort Model.Interval Model.Pbox Proofs.ListR Proofs.Frechet.
+From PUN Require Import Base.Num Base.Sort Model.Interval Model.Pbox Proofs.ListR Proofs.PboxWF Proofs.Frechet Proofs.Tight.
 From Coq Require Import Lia.
 Import ListNotations.
 Open Scope R_scope.
@@ -71,6 +71,32 @@ Theorem C02_left_pair (op : R -> R -> R) (D : R -> Prop) n XL XR YL YR x y pi s 
 Proof. intros Hm l1 l2 l3 l4 s1 s2 d1 d2 lx ly hx hy hp hs hss e hi.
   exact (frechet_left_pair op D Hm n XL XR YL YR l1 l2 l3 l4 s1 s2 d1 d2 x y lx ly hx hy pi hp s hs hss j0 k0 i e hi). Qed.
 
+(* TIGHTNESS: for every step i there is a coupling of the bounding distributions that attains the bound (any n; any operation
+   nondecreasing on an upward-closed domain: + on all reals, x on non-negative operands).  Left bound: step j of X with step i - j
+   of Y for j <= i, identically above; right bound: step j >= i of X with step n-1+i-j of Y, identically below. *)
+Theorem C02_left_attained (op : R -> R -> R) (D : R -> Prop) n XL XR YL YR i :
+  (forall a a' b b', D a -> D b -> a <= a' -> b <= b' -> op a b <= op a' b') ->
+  length XL = n -> length XR = n -> length YL = n -> length YR = n -> Rsorted XL -> Rsorted YL -> ple XL XR -> ple YL YR ->
+  (forall j, (j < n)%nat -> D (nth j XL 0)) -> (forall j, (j < n)%nat -> D (nth j YL 0)) -> (i < n)%nat ->
+  Permutation (coupling_left n i) (seq 0 n) /\
+  nth i (Rsort (outcomes op n XL YL (coupling_left n i))) 0 = frechet_left RN op XL YL i.
+Proof. intros Hm l1 l2 l3 l4 s1 s2 p1 p2 d1 d2 Hi. split; [exact (coupling_left_perm n i Hi)|].
+  exact (frechet_left_attained op D Hm n XL XR YL YR l1 l2 l3 l4 s1 s2 p1 p2 d1 d2 i Hi). Qed.
+Theorem C02_right_attained (op : R -> R -> R) (D : R -> Prop) n XL XR YL YR i :
+  (forall a a', D a -> a <= a' -> D a') -> (forall a a' b b', D a -> D b -> a <= a' -> b <= b' -> op a b <= op a' b') ->
+  length XL = n -> length XR = n -> length YL = n -> length YR = n -> Rsorted XR -> Rsorted YR -> ple XL XR -> ple YL YR ->
+  (forall j, (j < n)%nat -> D (nth j XL 0)) -> (forall j, (j < n)%nat -> D (nth j YL 0)) -> (i < n)%nat ->
+  Permutation (coupling_right n i) (seq 0 n) /\
+  nth i (Rsort (outcomes op n XR YR (coupling_right n i))) 0 = frechet_right RN op XR YR i.
+Proof. intros Hu Hm l1 l2 l3 l4 s1 s2 p1 p2 d1 d2 Hi. split; [exact (coupling_right_perm n i Hi)|].
+  exact (frechet_right_attained op D Hu Hm n XL XR YL YR l1 l2 l3 l4 s1 s2 p1 p2 d1 d2 i Hi). Qed.
+(* instance: + on any operands *)
+Corollary C02_add_left_attained n XL XR YL YR i :
+  length XL = n -> length XR = n -> length YL = n -> length YR = n -> Rsorted XL -> Rsorted YL -> ple XL XR -> ple YL YR -> (i < n)%nat ->
+  nth i (Rsort (outcomes Rplus n XL YL (coupling_left n i))) 0 = frechet_left RN Rplus XL YL i.
+Proof. intros l1 l2 l3 l4 s1 s2 p1 p2 Hi.
+  exact (frechet_left_attained Rplus (fun _ => True) ltac:(intros; lra) n XL XR YL YR l1 l2 l3 l4 s1 s2 p1 p2 ltac:(intros; exact I) ltac:(intros; exact I) i Hi). Qed.
+
 (* non-vacuity: a two-step instance with the swapping coupling *)
 Example C02_ex : nth 0 (fst (frechet_op RN Rplus [1; 2] [2; 3] [10; 20] [11; 21])) 0 = 11 /\
                  nth 1 (snd (frechet_op RN Rplus [1; 2] [2; 3] [10; 20] [11; 21])) 0 = 24.
@@ -88,3 +114,5 @@ Print Assumptions C02_frechet_sound.
 Print Assumptions C02_add_sound.
 Print Assumptions C02_mul_sound.
 Print Assumptions C02_left_pair.
+Print Assumptions C02_left_attained.
+Print Assumptions C02_right_attained.
